@@ -15,6 +15,8 @@ CFG = {
             "drawz = Draw(ctx) of a real list.Dynamic in its fresh scroll state (DrawCursor on/off, Gap 0..2, 0..9 items Text/RichText/TextField "
             "and the widgets a list cannot hold: Button, Center, Dynamic; also inside a Center) for the same Max grid and random small Max, "
             "the items Draw drew recorded through the Builder, sizes and origins of every surface compared; "
+            "drawzs (round 3) = long lists drawn again after SetCursor/NextItem/PrevItem/SetPendingScroll (scrolled states, items above the viewport): "
+            "oracle only (no panic, every surface within its own Max, buffers exact); "
             "render = hand-built surface trees (depth <= 3, <= 4 children, offsets from -2 to beyond the parent, z in -1..2, root smaller/equal/larger "
             "than the screen, every root size 0..5 x 0..4 on a 4x3 screen, surfaces with more than 65535 cells) painted on screens <= 6x4 through the hook "
             "that evaluates App.Run's render call; run = the same families as the root surface of one frame of the real App.Run on a fake console; "
@@ -25,7 +27,8 @@ CFG = {
                      "expression to the one in App.Run, and the run stream drives App.Run itself), VerifC14AppVaxis and the C11 snapshot hook",
                      "sort.Slice is modelled as a stable sort (it is an insertion sort below 12 elements); trees have < 12 children",
                      "which items a list.Dynamic draws (scroll state, heights: property C19) is a parameter of the model; the correspondence run "
-                     "covers the fresh scroll state; the gutter and cursor-glyph cells of Dynamic are not modelled (no effect on sizes)"],
+                     "covers the fresh scroll state with the model and scrolled states with the oracle only (drawzs); the gutter and cursor-glyph cells of Dynamic "
+                     "are not modelled (no effect on sizes)"],
     "assumptions": ["constraints for widgets that allocate Max.Width x Max.Height buffers (Center, Button, Dynamic) are generated only up to "
                     "2,000,000 cells: larger ones are covered by the theorems, not by the correspondence run"],
     "level_text": "Proved for all uint16 constraints, contents and sizes: newSurface_len, writeCell_exact (inside: exactly cell "
